@@ -59,6 +59,12 @@ def run(tier):
                        # long record, short segments: bins with K far above the NumPy kernels' chunk sizes (8192 / 16384 / 32768)
                        [dict(N=150000, fs=1.0, data="drift", sched="ltf", win="hann", order=o, backend="numpy", Jdes=12, Kdes=20, Lmin=1, psll=120)
                         for o in ((2, 0) if tier == "quick" else (-1, 0, 1, 2))] +
+                       # no detrending on records with DC offsets, every backend: alone and in a pair the channel goes through different kernels
+                       [dict(N=3000, fs=1.0, data="offset", sched="ltf", win="hann", order=-1, backend=b, Jdes=30, Kdes=5, Lmin=1, psll=120,
+                             variants=[("alone",), ("swap",)]) for b in ("numpy", "numba")] +
+                       # bins within 1e-3 rad of DC and of Nyquist (long record, order -1): swapping the channels conjugates the cross spectrum there too
+                       [dict(N=20000, fs=1.0, data="delay_coupled", sched="ltf", win="hann", order=-1, backend="numba", Jdes=60, Kdes=5, Lmin=1, psll=120,
+                             variants=[("alone",), ("swap",)])] +
                        [dict(N=131072, fs=1.0, data="hugeoffset", sched="vectorized_ltf", win="hann", order=0, backend="numba", Jdes=40, Kdes=50, Lmin=1, psll=120,
                              variants=[("alone",), ("swap",)])])       # (no gain variant: inside the main lobe the rounding of the removed mean is not small)
     items = [(k, o, b, s, f) for k in ("zero_y", "zero_x", "const", "identical", "negated", "both_zero") for o in (-1, 0, 1, 2)
